@@ -663,6 +663,18 @@ impl Sim {
                     self.op();
                 }
             }
+            Step::Resize { slot, len } => {
+                if slot >= nslots {
+                    return;
+                }
+                let Some(e) = self.slots[slot] else { return };
+                let v = self.val();
+                if let Some(mut c) = self.server.world_mut().get_mut::<C>(e) {
+                    c.0 = v;
+                    c.1 = secret(v, len as usize);
+                    self.op();
+                }
+            }
             Step::SetRef { slot, target } => {
                 if !self.cfg.refs || self.cfg.vis != 0 || slot >= nslots || target >= nslots {
                     return;
@@ -694,7 +706,7 @@ impl Sim {
                 self.op();
             }
             Step::SetParent { slot, parent } => {
-                if !self.cfg.children || self.cfg.vis != 0 || slot >= nslots || parent >= slot {
+                if !self.cfg.children || (self.cfg.vis != 0 && !self.cfg.children_any_vis) || slot >= nslots || parent >= slot {
                     return;
                 }
                 let (Some(e), Some(p)) = (self.slots[slot], self.slots[parent]) else { return };
